@@ -179,6 +179,9 @@ func buildBatchWorld(root string, days int) *batchWorld {
 	a := mk("p1", "1", "F1", "001", "loam12", "XWA", "")
 	b := mk("p1", "2", "F2", "002", "sand20", "XWB", "")
 	c := mk("p2", "1", "F1", "001", "silt20", "SM", "")
+	c.SoilCSVOrder = 1 // the other project's soil table has its columns in another order
+	// ... and scheduled irrigation: two events inside every period, two far behind the end date
+	c.Irr = []proj.Irr{{Date: isoAdd(start, 1), MM: 20, NConc: 30}, {Date: isoAdd(start, 2), MM: 15, NConc: 0}, {Date: isoAdd(start, days+40), MM: 25, NConc: 50}, {Date: isoAdd(start, days+70), MM: 30, NConc: 40}}
 	// p1: merge the two plots into one set of project files
 	polyHdr := "Polyg SID  Field_ID  GH GL Ir comment\n"
 	rows := func(s string) string { // drop the header line
@@ -216,6 +219,7 @@ func buildBatchWorld(root string, days int) *batchWorld {
 		}
 		os.WriteFile(filepath.Join(root, "weather", "w", "WG.csv"), []byte(strings.Join(ls, "\n")), 0o644)
 	}
+	os.WriteFile(filepath.Join(root, "weather", "w", "preco.txt"), []byte("Mo Corr\n 1 1.25\n 2 1.50\n 3 1.12\n 4 1.50\n 5 1.25\n 6 1.00\n 7 0.75\n 8 1.75\n 9 1.37\n10 1.62\n11 1.87\n12 2.00\n"), 0o644)
 	// private parameter folder with the two custom crops
 	par := filepath.Join(root, "par")
 	os.MkdirAll(par, 0o755)
@@ -237,6 +241,11 @@ func buildBatchWorld(root string, days int) *batchWorld {
 		"Ag": "project=p1 plotNr=1 fcode=W parameter=par poligonID=Q GroundWaterFrom=0",
 		// the same plot with groundwater from the time-series file
 		"As": "project=p1 plotNr=1 fcode=W parameter=par poligonID=S GroundWaterFrom=2",
+		// project p2 (scheduled irrigation, some events behind the end date) with automatic irrigation instead
+		"Ca": "project=p2 plotNr=1 fcode=W parameter=par poligonID=U AutoIrrigation=1",
+		// plot 1 with the monthly precipitation correction / another missing-value code
+		"Ap": "project=p1 plotNr=1 fcode=W parameter=par poligonID=V CorrectionPrecipitation=1",
+		"An": "project=p1 plotNr=1 fcode=W parameter=par poligonID=Y WeatherNoneValue=-7",
 		// the same plots with configuration and crop overrides on the line (must not reach other runs of the session)
 		"Ao": "project=p1 plotNr=1 fcode=W parameter=par poligonID=O NDeposition=60 KcFactorBareSoil=0.6 LeachingDepth=9 CropFile=PARAM.XWA c_MAXAMAX=30 c_TSUM_1=60 c_WUMAXPF=7",
 		"Bo": "project=p1 plotNr=2 fcode=W parameter=par poligonID=P Fertilization=50 ETpot=2 CropFile=PARAM.XWB c_MINTMP=1 c_KC_2=1.2",
